@@ -418,6 +418,31 @@ fn oracle_c13(t: &WorldTrace, obs: &[Obs], stats: &mut Stats) -> Vec<Violation> 
                 }
             }
         }
+        // what was physically printed (captured stdout / stderr of the simulated process)
+        if matches!(v.entry, Entry::Check | Entry::Tokenize) {
+            stats.count("c13.printed_output_evaluations");
+            let ok = matches!(o.outcome, Outcome::Ok);
+            if o.printed.ok_line != ok {
+                out.push(viol(
+                    "C13",
+                    format!("C13/ok-line-disagrees-with-exit/{:?}/{what}", v.entry),
+                    format!("variant {i} ({role}, args {:?}): result {:?} but stdout {} an OK line", v.args, o.outcome, if o.printed.ok_line { "has" } else { "has not" }),
+                ));
+            }
+            if v.entry == Entry::Check {
+                if ok && !o.printed.codes.is_empty() {
+                    out.push(viol("C13", format!("C13/exit-0-but-diagnostic-printed/{what}"), format!("variant {i} ({role}, args {:?}): exit 0 and OK, but stderr carries {:?}", v.args, o.printed.codes)));
+                }
+                if !ok && o.printed.codes.is_empty() {
+                    out.push(viol("C13", format!("C13/err-without-coded-diagnostic/{what}"), format!("variant {i} ({role}, args {:?}, world {kind}): non-zero result ({:?}) but stderr carries no error[Pnnnn] line", v.args, o.outcome)));
+                }
+                let mut printed = o.printed.codes.clone();
+                printed.sort();
+                if emitfail == 0 && printed != o.codes() {
+                    out.push(viol("C13", format!("C13/printed-codes-differ-from-emitted/{what}"), format!("variant {i} ({role}): diagnostics handed to the renderer {:?}, printed {:?}", o.codes(), printed)));
+                }
+            }
+        }
         for d in &o.diags {
             if !is_problem_code(&d.code) {
                 out.push(viol("C13", "C13/diagnostic-without-code".into(), format!("variant {i}: diagnostic with code {:?}", d.code)));
@@ -734,6 +759,42 @@ fn oracle_c14(t: &WorldTrace, obs: &[Obs], stats: &mut Stats) -> Vec<Violation> 
             }
             if o.codes() != reference.codes() {
                 out.push(viol("C14", format!("C14/twin-codes-differ/{}", encs.join("+")), format!("stored as [{}]: {:?}; stored as [{}]: {:?}", describe(rv), reference.codes(), describe(v), o.codes())));
+                continue;
+            }
+            // what was physically printed: codes, file:line:col of every rendered diagnostic, and
+            // (tokenize) the Ln/Col of every token
+            if reference.printed.codes != o.printed.codes || reference.printed.locations != o.printed.locations {
+                out.push(viol(
+                    "C14",
+                    format!("C14/twin-printed-positions-differ/{}", encs.join("+")),
+                    format!("variant {i}: stored as [{}] the terminal shows {:?} at {:?}; stored as [{}] it shows {:?} at {:?}", describe(rv), reference.printed.codes, reference.printed.locations, describe(v), o.printed.codes, o.printed.locations),
+                ));
+                continue;
+            }
+            if v.entry == Entry::Tokenize {
+                stats.count("c14.twin_token_dump_comparisons");
+                if reference.printed.token_positions != o.printed.token_positions {
+                    let first = reference.printed.token_positions.iter().zip(&o.printed.token_positions).position(|(a, b)| a != b);
+                    out.push(viol(
+                        "C14",
+                        format!("C14/twin-token-positions-differ/{}", encs.join("+")),
+                        format!("variant {i}: `tokenize` prints {} token positions for [{}] and {} for [{}]; first difference at token {first:?}", reference.printed.token_positions.len(), describe(rv), o.printed.token_positions.len(), describe(v)),
+                    ));
+                    continue;
+                }
+            }
+            // what the diagnostics say in words (the lexer states line and column in its message)
+            let messages = |o: &Obs| {
+                let mut m: Vec<(String, String)> = o.diags.iter().map(|d| (d.code.clone(), d.primary.message.clone())).collect();
+                m.sort();
+                m
+            };
+            if messages(reference) != messages(o) {
+                out.push(viol(
+                    "C14",
+                    format!("C14/twin-messages-differ/{}", encs.join("+")),
+                    format!("variant {i}: stored as [{}] the diagnostics read {:?}; stored as [{}] they read {:?}", describe(rv), messages(reference), describe(v), messages(o)),
+                ));
                 continue;
             }
             match (positions(rv, reference), positions(v, o)) {
